@@ -86,8 +86,8 @@ def _isinstance_tests(f):
     for n in ast.walk(f):
         if isinstance(n, ast.Call) and isinstance(n.func, ast.Name) and n.func.id == 'isinstance' and len(n.args) == 2:
             t = n.args[1]
-            names = frozenset(_txt(x) for x in (t.elts if isinstance(t, ast.Tuple) else [t]))
-            out.setdefault(_txt(n.args[0]), set()).add(names)
+            # (the union over all tests of the operand: isinstance(v, A) or isinstance(v, B) is isinstance(v, (A, B)))
+            out.setdefault(_txt(n.args[0]), set()).update(_txt(x) for x in (t.elts if isinstance(t, ast.Tuple) else [t]))
     return out
 
 
@@ -350,8 +350,8 @@ def check(rep, ix):
             ri, ci = _isinstance_tests(rf), _isinstance_tests(f)
             for x in sorted(ri):
                 if x in ci and ri[x] != ci[x]:
-                    rep.ob('R-GEN-ISINSTANCE', site, f'isinstance({x}, ..) accepts the validated classes', False, found=str(sorted(sorted(s) for s in ci[x])),
-                           required=str(sorted(sorted(s) for s in ri[x])), module=mod, node=f)
+                    rep.ob('R-GEN-ISINSTANCE', site, f'isinstance({x}, ..) accepts the validated classes', False, found=str(sorted(ci[x])),
+                           required=str(sorted(ri[x])), module=mod, node=f)
                 elif x in ci:
                     rep.ob('R-GEN-ISINSTANCE', site, f'isinstance({x}, ..) accepts the validated classes', True, module=mod, node=f)
     rep.info(f'R-GEN: {nfun} changed, ungated functions of consulted modules compared with the reference')
